@@ -428,9 +428,17 @@ LONG_TOKENS = {
     "U4096": (ref.UBX, "frame", ref.frame(0x99, 0x02, bytes(4096))),
     "Nlong": (ref.NMEA, "frame", ref.nmea_sentence("GNTXT,01,01,02," + "x" * 200)),
 }
+# frames that are well framed (valid checksum) but whose CONTENT the protocol parser refuses, one per error type
+# the parsers raise for content (kept out of the deep enumerations, enumerated with the boundary-length frames)
+ERR_TOKENS = {
+    "Ntype": (ref.NMEA, "frame", ref.nmea_sentence("GNGGA,080247.00,5327.04300,N,00214.41385,W,x,07,1.63,36.7,M,48.5,M,,")),  # NMEATypeError
+    "Utype": (ref.UBX, "frame", ref.frame(0x0B, 0x02, b"\x00")),  # AID-HUI cut inside a field: UBXTypeError
+    "Umsg": (ref.UBX, "frame", ref.frame(0x06, 0x8B, bytes(9))),  # CFG-VALGET with key 0: UBXMessageError
+}
 TOKENS.update(LONG_TOKENS)
-LONG_NAMES = list(LONG_TOKENS)
-FRAME_TOKENS = [k for k, v in TOKENS.items() if v[1] == "frame" and k not in LONG_TOKENS]
+TOKENS.update(ERR_TOKENS)
+LONG_NAMES = list(LONG_TOKENS) + list(ERR_TOKENS)
+FRAME_TOKENS = [k for k, v in TOKENS.items() if v[1] == "frame" and k not in LONG_NAMES]
 NOISE_TOKENS = [k for k, v in TOKENS.items() if v[1] == "noise"]
 FRAG_TOKENS = [k for k, v in TOKENS.items() if v[1] == "frag"]
 
